@@ -16,6 +16,19 @@ fn seq_from_code(len: usize, code: usize) -> Vec<char> {
     (0..len).map(|i| if code >> i & 1 == 1 { 'r' } else { 's' }).collect()
 }
 
+/// base-3 variant for REP: s = send, r = recv of a valid request, v = recv of a
+/// request that violates the envelope rule (single frame): must be one Err and
+/// must leave the lock-step state untouched
+fn seq3_from_code(len: usize, mut code: usize) -> Vec<char> {
+    (0..len)
+        .map(|_| {
+            let c = ['s', 'r', 'v'][code % 3];
+            code /= 3;
+            c
+        })
+        .collect()
+}
+
 fn taps_total(peers: &[Peer]) -> usize {
     peers.iter().map(|p| p.conn.tap_len()).sum()
 }
@@ -216,6 +229,28 @@ async fn rep_sequence(ctx: &mut Ctx, seq: &[char], avail: &str, case: &Value) {
     for (step, op) in seq.iter().enumerate() {
         let before = taps_total(&peers);
         match op {
+            'v' => {
+                // an envelope-violating message from the *other* client
+                let who = 1 - turn;
+                peers[who].send(&[b"no-envelope".to_vec()]);
+                ctx.count("rep_malformed_requests");
+                match recv_now(&mut sock).await {
+                    Some(Err(_)) => {}
+                    other => {
+                        ctx.violation_with(
+                            "C08/rep/malformed-request-not-reported-as-one-error",
+                            format!("step {step} of {seq:?}: single-frame request; recv returned {other:?}"),
+                            case.clone(),
+                        );
+                        return;
+                    }
+                }
+                if taps_total(&peers) != before {
+                    ctx.violation_with("C08/rep/malformed-request-caused-writes", format!("step {step}"), case.clone());
+                    return;
+                }
+                // state unchanged: checked by the following steps against the same reference state
+            }
             'r' => {
                 if avail == "available" {
                     feed_request(&peers, turn, next_req[turn]);
@@ -479,6 +514,13 @@ impl Prop for C08 {
                     v.push(json!({"kind": "rep_seq", "len": len, "code": code, "avail": avail}));
                 }
             }
+            // REP with malformed requests in between (base-3 alphabet)
+            for code in 0..3usize.pow(len as u32) {
+                let sq = seq3_from_code(len, code);
+                if sq.contains(&'v') {
+                    v.push(json!({"kind": "rep_seq3", "len": len, "code": code, "avail": "available"}));
+                }
+            }
         }
         for n in 1..=8usize {
             for k in 0..tier.pick(20, 200) {
@@ -503,6 +545,12 @@ impl Prop for C08 {
                 ctx.sample("rep_seq", || json!({"seq": seq.iter().collect::<String>(), "avail": s(case, "avail")}));
                 sim::run(rep_sequence(ctx, &seq, s(case, "avail"), case));
             }
+            "rep_seq3" => {
+                let seq = seq3_from_code(u(case, "len") as usize, u(case, "code") as usize);
+                ctx.count("rep_sequences_with_malformed_requests");
+                ctx.sample("rep_seq3", || json!({"seq": seq.iter().collect::<String>()}));
+                sim::run(rep_sequence(ctx, &seq, s(case, "avail"), case));
+            }
             "concurrent" => {
                 ctx.count("concurrent_runs");
                 ctx.sample("concurrent", || case.clone());
@@ -521,6 +569,8 @@ impl Prop for C08 {
             ("rep_out_of_turn_sends", 100),
             ("req_recv_parked", 100),
             ("rep_recv_parked", 100),
+            ("rep_sequences_with_malformed_requests", 500),
+            ("rep_malformed_requests", 1000),
             ("concurrent_runs", 160),
             ("concurrent_runs_with_overlap", 100),
             ("concurrent_round_trips", 1000),
